@@ -48,7 +48,8 @@ def project(evs, ost, wfout=None):
         elif k == 'OutSend':
             out.append({'k': 'Out', 'id': WFOUT.get(e['id'], e['id'])})
         elif k == 'SSlot' and e['op'] in ('take', 'miss'):
-            out.append({'k': 'Slot', 's': s, 'slot': e['slot'], 'op': e['op']})
+            out.append({'k': 'Slot', 's': s, 'slot': e['slot'], 'op': e['op'],
+                        'val': ('T' if e.get('val') in (True, 'true') else 'F') if e['slot'] == 'enabling' else 'nil'})
         elif k == 'SDeployRet':
             out.append({'k': 'Deploy', 's': s, 'ok': e.get('err') is None, 'ctxdone': bool(e.get('ctxdone'))})
         elif k == 'SConn':
@@ -87,7 +88,7 @@ def project(evs, ost, wfout=None):
             out.append({'k': 'Ctx', 's': s, 'why': e['why']})
     # every record gets every field (TLC records are compared field-wise)
     fields = {'s': 'nil', 'stage': 'nil', 'state': 'nil', 'who': 'nil', 'prev': 'nil', 'out': 'nil', 'st': 'nil', 'kind': 'nil', 'len': 0, 'id': 'nil',
-              'slot': 'nil', 'op': 'nil', 'ok': True, 'ctxdone': False, 'retries': -1, 'dead': False, 'branch': 'nil', 'why': 'nil'}
+              'slot': 'nil', 'op': 'nil', 'val': 'nil', 'ok': True, 'ctxdone': False, 'retries': -1, 'dead': False, 'branch': 'nil', 'why': 'nil'}
     return [dict(fields, **x) for x in out]
 
 
@@ -134,31 +135,38 @@ def tree_refs(t):
     return None
 
 
-def custom_of(wf):
+def custom_of(wf, oc=None):
     """the Custom record of Engine.tla for an abstract workflow, or None when the workflow is outside the modelled
     fragment (plugin steps whose input / wait_for / deploy fields are literals and plain references, no enabled / stop_if,
     untagged outputs)"""
     try:
-        return _custom_of(wf)
+        return _custom_of(wf, oc or {})
     except KeyError:
         return None
 
 
-def _custom_of(wf):
+def _custom_of(wf, oc):
     steps = sorted(wf['steps'])
     refs = {}
+    enabled, stop = {}, {}
     for sid in steps:
         d = wf['steps'][sid]
         if d['kind'] != 'plugin' or d.get('pstep', 'work') != 'work':
             return None
-        per = {'starting': [], 'deploy': []}
+        per = {'starting': [], 'deploy': [], 'enabling': [], 'cancelled': []}
+        # the values of the enabled / stop_if expressions come from the generator's outcome vector (they are inputs of
+        # the model, like the plugin outcomes)
+        enabled[sid] = 'F' if oc.get(sid, {}).get('enabled') is False else 'T'
+        stop[sid] = 'T' if oc.get(sid, {}).get('stop') else 'F'
         for f, t in d['fields'].items():
-            if f not in ('input', 'wait_for', 'deploy', 'closure_wait_timeout'):
+            if f not in ('input', 'wait_for', 'deploy', 'closure_wait_timeout', 'enabled', 'stop_if'):
+                return None
+            if f in ('enabled', 'stop_if') and sid not in oc:
                 return None
             r = tree_refs(t)
             if r is None:
                 return None
-            st = 'deploy' if f == 'deploy' else 'starting'
+            st = {'deploy': 'deploy', 'enabled': 'enabling', 'stop_if': 'cancelled'}.get(f, 'starting')
             for x in r:
                 n = node_of(x)
                 if n is not None and n not in per[st]:
@@ -170,4 +178,4 @@ def _custom_of(wf):
         if r is None:
             return None
         outs[oid] = [n for n in (node_of(x) for x in dict.fromkeys(r)) if n is not None]
-    return {'steps': steps, 'refs': refs, 'outputs': outs}
+    return {'steps': steps, 'refs': refs, 'outputs': outs, 'enabled': enabled, 'stop': stop}
